@@ -8,7 +8,8 @@ from typing import Callable, Dict, List, Optional, Sequence, Set, Tuple
 
 from ..cmpform import Interp, Scenario, weak_orderings
 from ..core import rule
-from ..program import AnalysisError, dotted, src, walk_local
+from ..program import AnalysisError, dotted, src
+from ..core import walk_local  # inline-aware
 from .common import where
 
 CALDAV = "xandikos.caldav"
